@@ -66,6 +66,97 @@ fn squeeze_schedule(name: &str) -> Option<fn(&[bool]) -> (Vec<usize>, usize)> {
     }
 }
 
+/// Challenge-aware errors cancelling ACROSS points: the per-polynomial opening challenges are public (squeezed
+/// from the caller's sponge), the verifier's batching randomizers are not. An error pair (d1, -d1*xi1/xi2) on
+/// unbounded polynomials of two different point labels makes the combined values of both points wrong by
+/// amounts that cancel iff the two points get the same randomizer. One pair per pair of point labels.
+pub fn challenge_aware_across_points<S: Scheme>(
+    ctx: &mut Ctx,
+    tx: &Tx<S>,
+    q: &Queries<S>,
+    proof: &BatchProofOf<S>,
+    proofs: &[ProofOf<S>],
+    vcomms: &[LComm<S>],
+    txj: &Value,
+    rng: &mut ChaCha20Rng,
+    class: &str,
+    with_reference: bool,
+) {
+    if let Some(sched) = squeeze_schedule(S::NAME) {
+        let mut spv = tx.sponge();
+        let _ = batch_check::<S>(&tx.w.vk, vcomms, &q.qs, &q.evals, proof, &mut spv, 5);
+        let ch: Vec<FOf<S>> = spv.squeezed_fes();
+        // locate, per group, the challenge of each unbounded polynomial
+        let mut off = 0usize;
+        let mut slots: Vec<(usize, String, PtOf<S>, FOf<S>)> = Vec::new();
+        for (gi, g) in q.groups.iter().enumerate() {
+            let bounded: Vec<bool> = g.2.iter().map(|l| tx.c.comms[tx.idx_of(l)].degree_bound().is_some()).collect();
+            let (idxs, count) = sched(&bounded);
+            for (j, l) in g.2.iter().enumerate() {
+                if !bounded[j] && off + idxs[j] < ch.len() {
+                    slots.push((gi, l.clone(), g.1.clone(), ch[off + idxs[j]]));
+                }
+            }
+            off += count;
+        }
+        let mut done = 0;
+        if off == ch.len() {
+            // one slot pair per PAIR OF POINT LABELS (later pairs first: a verifier may treat its first entry
+            // differently from the rest), at most six pairs
+            let mut pairs: Vec<(usize, usize)> = Vec::new();
+            for ga in (0..q.groups.len()).rev() {
+                for gb in (0..ga).rev() {
+                    let sa: Vec<usize> = (0..slots.len()).filter(|&i| slots[i].0 == ga && !slots[i].3.is_zero()).collect();
+                    let sb: Vec<usize> = (0..slots.len()).filter(|&i| slots[i].0 == gb && !slots[i].3.is_zero()).collect();
+                    if !sa.is_empty() && !sb.is_empty() {
+                        pairs.push((sa[below(rng, sa.len())], sb[below(rng, sb.len())]));
+                    }
+                }
+            }
+            for (a, b) in pairs {
+                {
+                    if done >= 6 {
+                        continue;
+                    }
+                    // two different point labels; if they share the point VALUE and the polynomial, the key coincides
+                    if slots[a].1 == slots[b].1 && slots[a].2 == slots[b].2 {
+                        continue;
+                    }
+                    let d1 = loop {
+                        let d = FOf::<S>::rand(rng);
+                        if !d.is_zero() {
+                            break d;
+                        }
+                    };
+                    let d2 = -d1 * slots[b].3 * ark_ff::Field::inverse(&slots[a].3).unwrap();
+                    let mut ev = q.evals.clone();
+                    *ev.get_mut(&(slots[b].1.clone(), slots[b].2.clone())).unwrap() += d1;
+                    *ev.get_mut(&(slots[a].1.clone(), slots[a].2.clone())).unwrap() += d2;
+                    // a value shared by two point labels is perturbed in both groups: skip those shapes
+                    let shared = q.groups.iter().filter(|g| g.1 == slots[a].2 && g.2.contains(&slots[a].1)).count() > 1
+                        || q.groups.iter().filter(|g| g.1 == slots[b].2 && g.2.contains(&slots[b].1)).count() > 1;
+                    if shared {
+                        continue;
+                    }
+                    let (refd, routs) = per_point::<S>(tx, &q.groups, &ev, proofs, &mut tx.sponge());
+                    let o = batch_check::<S>(&tx.w.vk, vcomms, &q.qs, &ev, proof, &mut tx.sponge(), rng.next_u64());
+                    let mut dj = txj.clone();
+                    dj["pair"] = json!([slots[b].1, slots[a].1]);
+                    dj["groups"] = json!([slots[b].0, slots[a].0]);
+                    ctx.count("cancelling:challenge-aware-across-points", 1);
+                    if with_reference {
+                        ctx.check(o.is_accept() == refd, "batch-vs-single-mismatch", "batch_check", dj.clone(), || json!({"batch": o.json(), "per_point_all_accept": refd, "per_point": routs}));
+                    }
+                    ctx.check(!o.is_accept(), class, "batch_check", dj, || json!({"batch": o.json()}));
+                    done += 1;
+                }
+            }
+        } else {
+            ctx.count("schedule-mismatch", 1);
+        }
+    }
+}
+
 fn case<S: Scheme>(ctx: &mut Ctx, rng: &mut ChaCha20Rng) {
     let thorough = ctx.is_thorough();
     let tx = match gen_tx::<S>(rng, thorough, 4) {
@@ -159,69 +250,7 @@ fn case<S: Scheme>(ctx: &mut Ctx, rng: &mut ChaCha20Rng) {
         ctx.check(o.is_accept() == refd, "batch-vs-single-mismatch", "batch_check", dj.clone(), || json!({"batch": o.json(), "per_point_all_accept": refd, "per_point": routs}));
         ctx.check(!o.is_accept(), "cancelling-errors-accepted", "batch_check", dj, || json!({"batch": o.json()}));
     }
-    // (iii-b) challenge-aware errors cancelling ACROSS points: the per-polynomial opening challenges are
-    // public (squeezed from the caller's sponge), the verifier's batching randomizers are not. An error
-    // pair (d1, -d1*xi1/xi2) on unbounded polynomials of two different point labels makes the combined
-    // values of both points wrong by amounts that cancel iff the two points get the same randomizer.
-    if let Some(sched) = squeeze_schedule(S::NAME) {
-        let mut spv = tx.sponge();
-        let _ = batch_check::<S>(&tx.w.vk, &vcomms, &q.qs, &q.evals, &proof, &mut spv, 5);
-        let ch: Vec<FOf<S>> = spv.squeezed_fes();
-        // locate, per group, the challenge of each unbounded polynomial
-        let mut off = 0usize;
-        let mut slots: Vec<(usize, String, PtOf<S>, FOf<S>)> = Vec::new();
-        for (gi, g) in q.groups.iter().enumerate() {
-            let bounded: Vec<bool> = g.2.iter().map(|l| tx.c.comms[tx.idx_of(l)].degree_bound().is_some()).collect();
-            let (idxs, count) = sched(&bounded);
-            for (j, l) in g.2.iter().enumerate() {
-                if !bounded[j] && off + idxs[j] < ch.len() {
-                    slots.push((gi, l.clone(), g.1.clone(), ch[off + idxs[j]]));
-                }
-            }
-            off += count;
-        }
-        let mut done = 0;
-        if off == ch.len() {
-            for a in 0..slots.len() {
-                for b in 0..a {
-                    if done >= 3 || slots[a].0 == slots[b].0 || slots[a].3.is_zero() || slots[b].3.is_zero() {
-                        continue;
-                    }
-                    // two different point labels; if they share the point VALUE and the polynomial, the key coincides
-                    if slots[a].1 == slots[b].1 && slots[a].2 == slots[b].2 {
-                        continue;
-                    }
-                    let d1 = loop {
-                        let d = FOf::<S>::rand(rng);
-                        if !d.is_zero() {
-                            break d;
-                        }
-                    };
-                    let d2 = -d1 * slots[b].3 * ark_ff::Field::inverse(&slots[a].3).unwrap();
-                    let mut ev = q.evals.clone();
-                    *ev.get_mut(&(slots[b].1.clone(), slots[b].2.clone())).unwrap() += d1;
-                    *ev.get_mut(&(slots[a].1.clone(), slots[a].2.clone())).unwrap() += d2;
-                    // a value shared by two point labels is perturbed in both groups: skip those shapes
-                    let shared = q.groups.iter().filter(|g| g.1 == slots[a].2 && g.2.contains(&slots[a].1)).count() > 1
-                        || q.groups.iter().filter(|g| g.1 == slots[b].2 && g.2.contains(&slots[b].1)).count() > 1;
-                    if shared {
-                        continue;
-                    }
-                    let (refd, routs) = per_point::<S>(&tx, &q.groups, &ev, &proofs, &mut tx.sponge());
-                    let o = batch_check::<S>(&tx.w.vk, &vcomms, &q.qs, &ev, &proof, &mut tx.sponge(), rng.next_u64());
-                    let mut dj = txj.clone();
-                    dj["pair"] = json!([slots[b].1, slots[a].1]);
-                    dj["groups"] = json!([slots[b].0, slots[a].0]);
-                    ctx.count("cancelling:challenge-aware-across-points", 1);
-                    ctx.check(o.is_accept() == refd, "batch-vs-single-mismatch", "batch_check", dj.clone(), || json!({"batch": o.json(), "per_point_all_accept": refd, "per_point": routs}));
-                    ctx.check(!o.is_accept(), "cancelling-errors-accepted[challenge-aware-across-points]", "batch_check", dj, || json!({"batch": o.json()}));
-                    done += 1;
-                }
-            }
-        } else {
-            ctx.count("schedule-mismatch", 1);
-        }
-    }
+    challenge_aware_across_points::<S>(ctx, &tx, &q, &proof, &proofs, &vcomms, &txj, rng, "cancelling-errors-accepted[challenge-aware-across-points]", true);
     // (iii-c) all claims true, blinding evaluation moved from one proof onto another (their sum is unchanged):
     // each per-point check then fails, so the batch must fail too.
     for a in 0..proofs.len() {
@@ -310,5 +339,12 @@ pub fn run(ctx: &mut Ctx) {
         let n = ctx.n(90, 1600) / <S as Scheme>::WEIGHT.max(1);
         ctx.run_cases(<S as Scheme>::NAME, n.max(4), |ctx, _i, rng| case::<S>(ctx, rng));
     });
+    // the same cases on configurations with more than a thousand coefficients
+    crate::schemes::set_large(true);
+    for_each_scheme!(ctx, S, {
+        let n = if ctx.is_thorough() { 6 } else { 2 };
+        ctx.run_cases(&format!("{}/large", <S as Scheme>::NAME), n, |ctx, _i, rng| case::<S>(ctx, rng));
+    });
+    crate::schemes::set_large(false);
     super::offtrait::c05(ctx);
 }
